@@ -92,6 +92,9 @@ class PathParameter(StringParameter):
         self.must_exist = must_exist
 
     def clean(self, value, program=None, lineno=None):
+        if not isinstance(value, six.string_types):
+            raise ParameterNotValid(value, "Path", lineno)
+
         super(PathParameter, self).clean(value, program, lineno)
 
         if not os.path.isabs(value):
